@@ -129,7 +129,13 @@ func VerifC11Cancel() {
 	op := verifChoose("op", 0, 4)
 	vfsReset()
 	vfsSeal()
+	// the context ends by an explicit cancel or by its deadline: the error the call may return is the context's own
+	ctxErr := error(context.Canceled)
 	ctx := verifCtx(k)
+	if verifFlag("deadline") {
+		ctxErr = context.DeadlineExceeded
+		ctx = verifCtxDeadline(k)
+	}
 	w := newVerifWriter()
 	var err error
 	verifContext("C11.cancel")
@@ -148,12 +154,12 @@ func VerifC11Cancel() {
 	verifReach("C11.cancel.returns")
 	if op == 4 {
 		_, isVerify := err.(verifyError)
-		verifAssert(isVerify || errors.Is(err, context.Canceled), "C11.ctxerr.only")
+		verifAssert(isVerify || errors.Is(err, ctxErr), "C11.ctxerr.only")
 	} else {
-		verifAssert(err == nil || errors.Is(err, context.Canceled), "C11.ctxerr.only")
+		verifAssert(err == nil || errors.Is(err, ctxErr), "C11.ctxerr.only")
 	}
 	if k == 0 {
-		verifAssert(errors.Is(err, context.Canceled), "C11.ctxerr/precancelled")
+		verifAssert(errors.Is(err, ctxErr), "C11.ctxerr/precancelled")
 	}
 	if k >= 100000 && op != 4 {
 		verifAssert(err == nil, "C11.cancel.never")
